@@ -2613,6 +2613,12 @@ func (db *DB) ApplyLTXNoLock(path string, fatalOnError bool) (retErr error) {
 
 // updateSHM recomputes the SHM header for a replica node (with no WAL frames).
 func (db *DB) updateSHM() error {
+	// A deleted (zero-length) database has no files on disk. Opening the SHM
+	// file below would re-create it right after the tombstone removed it.
+	if db.PageN() == 0 {
+		return nil
+	}
+
 	// This lock prevents an issue where triggering SHM invalidation in FUSE
 	// causes a write to be issued through the mmap which overwrites our change.
 	// This lock blocks that from occurring.
